@@ -989,12 +989,15 @@ namespace avel {
         switch (n) {
             case 0: return vec4x32f{_mm_setzero_ps()};
             case 1: return vec4x32f{_mm_load_ss(ptr)};
-            case 2: return vec4x32f{_mm_castpd_ps(_mm_load_sd(reinterpret_cast<const double*>(ptr)))};
+            // The two-element reads go through __m128i, which may alias any
+            // type. Reading the floats through a double* would let the
+            // compiler move the read across the caller's float stores
+            case 2: return vec4x32f{_mm_castsi128_ps(_mm_loadl_epi64(reinterpret_cast<const __m128i*>(ptr)))};
             case 3: return vec4x32f{
-                _mm_castpd_ps(
-                    _mm_unpacklo_pd(
-                        _mm_load_sd(reinterpret_cast<const double*>(ptr)),
-                        _mm_castps_pd(_mm_load_ss(ptr + 2))
+                _mm_castsi128_ps(
+                    _mm_unpacklo_epi64(
+                        _mm_loadl_epi64(reinterpret_cast<const __m128i*>(ptr)),
+                        _mm_castps_si128(_mm_load_ss(ptr + 2))
                     )
                 )
             };
